@@ -576,6 +576,13 @@ func (c *Conv) addBias(out, bias tensor.Tensor) (tensor.Tensor, error) {
 
 	biasShape[1] = bias.Shape()[0]
 
+	// The bias is reshaped for broadcasting: work on a copy so that the caller's (or the model's)
+	// tensor keeps its shape.
+	bias, ok := bias.Clone().(tensor.Tensor)
+	if !ok {
+		return nil, ops.ErrTypeAssert("tensor.Tensor", bias.Clone())
+	}
+
 	err := bias.Reshape(biasShape...)
 	if err != nil {
 		return nil, err
